@@ -163,6 +163,9 @@ Consume ==
         IF e.ev = "play" THEN
            LET r == IF e.via = "raw"
                     THEN [st |-> P!PlayCard(s, e.card), res |-> "ok", why |-> ""]
+                    ELSE IF e.via = "int" /\ s.mode # "plain"
+                    \* the bare index of a card is not a card: refused where hands are known
+                    THEN [st |-> s, res |-> "raises", why |-> "not-a-card"]
                     ELSE P!PStep(s, e.seat, e.card)
                checks == << <<"result", e.res = r.res>> >>
                              \o (IF IsSame(e) THEN << <<"unchanged", r.st = s>> >>
